@@ -694,3 +694,26 @@ def _o():
     PC = I("py_ecc.bls.point_compression")
     M = I("py_ecc.optimized_bls12_381")
     return (lambda: (PC.compress_G1((M.FQ(0), M.FQ(2), M.FQ(1))), PC.compress_G1((M.FQ(0), M.FQ(6), M.FQ(3)))), [], {})
+
+
+# ------------------------------------------------------------------ numbers that compare equal to a valid int key
+for _s in SUITES:
+    def _mk5(s):
+        @op("SkToPk:Fraction-equal-to-sk1:%s" % s, 0)
+        def _a():
+            from fractions import Fraction
+            C = getattr(I("py_ecc.bls"), SUITES[s])
+            return (C.SkToPk, [Fraction(LIT["sk1"])], {})
+
+        @op("Sign:Fraction-equal-to-sk1:%s" % s, 0)
+        def _b():
+            from fractions import Fraction
+            C = getattr(I("py_ecc.bls"), SUITES[s])
+            return (C.Sign, [Fraction(LIT["sk1"]), b"msg one"], {})
+    _mk5(_s)
+
+
+@op("PopProve:Fraction-equal-to-sk1", 0)
+def _o():
+    from fractions import Fraction
+    return (I("py_ecc.bls").G2ProofOfPossession.PopProve, [Fraction(LIT["sk1"])], {})
